@@ -42,6 +42,8 @@ def shards(tier):
     out += [(f"rand{i}", {"part": "random", "i": i}) for i in range(k // 2)]
     out += [(f"inv{i}", {"part": "invalid", "i": i}) for i in range(k // 2)]
     out += [("ints", {"part": "ints"}), ("fixedint", {"part": "fixedint"}), ("json", {"part": "json"})]
+    if tier == "thorough":
+        out += [(f"ath{i}", {"part": "atheris", "seconds": 300}) for i in range(4)]
     return out
 
 
@@ -181,6 +183,11 @@ def _record(ctx, kind, findings, record):
 
 def run_shard(ctx, spec):
     part = spec["part"]
+    if part == "atheris":
+        import sys as _sys
+        from harness.ath import run_atheris
+        run_atheris(ctx, "C19", spec["seconds"], _sys.modules[__name__])
+        return
     if part == "exhaustive":
         i, n = spec["i"], spec["n"]
         idx = 0
@@ -280,6 +287,14 @@ def run_shard(ctx, spec):
 
 def replay(rec) -> dict:
     k = rec["kind"]
+    if k == "b64any":
+        import re as _re
+        t = bytes.fromhex(rec["text_hex"])
+        if _re.fullmatch(rb"[A-Za-z0-9_-]*", t) and len(t) % 4 != 1:
+            return case_b64_valid_decode(t)
+        if t.rstrip(b"=") != t and _re.fullmatch(rb"[A-Za-z0-9_-]*", t.rstrip(b"=")):
+            return {}
+        return case_b64_invalid(t)
     if k == "b64rt":
         return case_b64_roundtrip(bytes.fromhex(rec["data_hex"]))
     if k == "b64invalid":
